@@ -28,7 +28,13 @@ def node_header(rec, nid):
     if kind == "machine":
         return (f"new machine {nid} {cfg.get('wc', 1)} {cfg.get('setup', 0)} {int(cfg.get('blocking', True))} "
                 f"{pol_str(cfg.get('inp', 'FIRST_AVAILABLE'))} {pol_str(cfg.get('out', 'FIRST_AVAILABLE'))} {nin} {nout}")
+    if kind in ("combiner", "splitter"):
+        tgt = "+".join(str(x) for x in cfg.get("target", [1])) or "-"
+        return (f"new pack {kind} {nid} {cfg.get('setup', 0)} {int(cfg.get('blocking', True))} "
+                f"{pol_str(cfg.get('inp', 'FIRST_AVAILABLE'))} {pol_str(cfg.get('out', 'FIRST_AVAILABLE'))} {nin} {nout} {tgt}")
     raise ValueError(kind)
+
+PSTATE = {"SETUP_STATE": 0, "IDLE_STATE": 1, "PROCESSING_STATE": 2, "BLOCKED_STATE": 3}
 
 def fmt_last(x): return "-" if x is None else str(x)
 
@@ -43,7 +49,17 @@ def stats_str(kind, st):
         rep = "-" if st["rep"] is None else f"{st['rep'][0]},{st['rep'][1]}"
         return (f"proc={st['num_item_processed']} disc={st['num_item_discarded']} last={fmt_last(st['last'])} rep={rep} "
                 f"tt={tt} occ={st['occ']} insel={st['insel']} outsel={st['outsel']} pd={st['pd']}")
+    if kind in ("combiner", "splitter"):
+        tt = [st["tt"][k] for k in ("SETUP_STATE", "IDLE_STATE", "PROCESSING_STATE", "BLOCKED_STATE")]
+        return (f"proc={st['num_item_processed']} disc={st['num_item_discarded']} state={PSTATE.get(st['state'], '?')} "
+                f"last={fmt_last(st['last'])} tt={tt} occ={st['occ']} insel={st['insel']} outsel={st['outsel']} pd={st['pd']}")
     raise ValueError(kind)
+
+def fmt_item(x):
+    if len(x) == 2: return f"{x[0]}@{x[1]}"
+    i, c, p, cont, woke = x
+    if not p and not cont and not woke: return f"{i}@{c}"
+    return f"{i}@{c}@{p}@{'+'.join(map(str, cont)) or '-'}@{'+'.join(map(str, woke)) or '-'}"
 
 def act_lines(rec, nid):
     """(input lines for the driver, expected output lines) for node nid"""
@@ -56,11 +72,11 @@ def act_lines(rec, nid):
         sels = [c.split()[1] for c in a["calls"] if c.startswith("sel ")]
         cans = [c.split()[2] for c in a["calls"] if c.startswith("can ")]
         # library RANDOM generator: the draw is not visible as a call; read it from what the node did with it
-        if kind == "machine" and a["stats"] is not None and prev is not None:
+        if kind in ("machine", "combiner", "splitter") and a["stats"] is not None and prev is not None:
             if cfg.get("inp") == "RANDOM" and len(a["stats"]["insel"]) > len(prev["insel"]):
                 sels = [str(a["stats"]["insel"][-1])] + sels
             if cfg.get("out") == "RANDOM" and len(a["stats"]["outsel"]) > len(prev["outsel"]):
-                sels = sels + [str(a["stats"]["outsel"][-1])]
+                sels = sels + [str(x) for x in a["stats"]["outsel"][len(prev["outsel"]):]]
         if kind == "source" and cfg.get("out") == "RANDOM" and a["proc"] == 0:
             k = None
             for c in a["calls"]:
@@ -76,7 +92,7 @@ def act_lines(rec, nid):
         if draws: parts.append("draws=" + ",".join(draws))
         if sels: parts.append("sels=" + ",".join(sels))
         if cans: parts.append("cans=" + ",".join(cans))
-        if a["items"]: parts.append("items=" + ",".join(f"{i}@{c}" for i, c in a["items"]))
+        if a["items"]: parts.append("items=" + ",".join(fmt_item(x) for x in a["items"]))
         ins.append(" ".join(parts))
         outs.append("; ".join(a["calls"]) + " || " + stats_str(kind, a["stats"]))
         prev = a["stats"]
@@ -118,7 +134,7 @@ def rand_buffer(rng):
 
 def gen_factory(rng):
     """random factory from a few graph shapes; every parameter from the PRNG"""
-    shape = rng.choice(["line", "line", "fanout", "fanin", "diamond", "two", "split", "split"])
+    shape = rng.choice(["line", "line", "fanout", "fanin", "diamond", "two", "split", "split", "pack", "pack", "pack", "unpack"])
     edges, nodes, links = [], [], []
     def E(): edges.append(rand_buffer(rng)); return len(edges) - 1
     def N(d): nodes.append(d); return len(nodes) - 1
@@ -132,7 +148,41 @@ def gen_factory(rng):
                       wc=rng.choice([1, 1, 2, 3]), setup=rng.choice([0, 0, 1, 3]), blocking=rng.random() < 0.6,
                       inp=rand_policy(rng, nin), out=rand_policy(rng, nout)))
     def sink(): return N(dict(kind="sink"))
-    if shape == "line":
+    def psource(nout, pallet):
+        d = nodes[source(nout)]
+        if pallet: d["item_type"] = "pallet"
+        return len(nodes) - 1
+    def pd(): return [rng.choice([0, 1, 2, 4]) for _ in range(rng.randrange(1, 3))]
+    if shape in ("pack", "unpack"):
+        # pallet source + k item sources -> combiner -> splitter (or sink) -> sinks
+        k = rng.choice([0, 1, 1, 2, 2, 3])
+        wrong = rng.random() < 0.06
+        invalid = []
+        srcs = [psource(1, not (wrong and rng.random() < 0.5))] + [psource(1, wrong and rng.random() < 0.5) for _ in range(k)]
+        target = [rng.choice([0, 1, 1, 2, 3]) for _ in range(k + 1)]
+        if rng.random() < 0.06 and k > 0:
+            target = target[:rng.randrange(1, k + 1)]; invalid.append("IndexError")       # recipe shorter than the in-edge list
+        if wrong: invalid.append("RuntimeError")                                             # an in-edge supplies the wrong kind of flow item
+        nco = rng.choice([1, 1, 2])
+        c = N(dict(kind="combiner", pd=pd(), target=target, setup=rng.choice([0, 0, 2]), blocking=rng.random() < 0.65,
+                   out=rand_policy(rng, nco)))
+        for sidx in srcs:
+            e = E(); links.append((e, sidx, c))
+        if shape == "pack" and rng.random() < 0.75:
+            nso = rng.choice([1, 2, 2, 3])
+            sp = N(dict(kind="splitter", pd=pd(), setup=rng.choice([0, 0, 1]), blocking=rng.random() < 0.65,
+                        inp=rand_policy(rng, nco), out=rand_policy(rng, nso)))
+            for _ in range(nco):
+                e = E(); links.append((e, c, sp))
+            for _ in range(nso):
+                kk = sink(); e = E(); links.append((e, sp, kk))
+        else:
+            for _ in range(nco):
+                kk = sink(); e = E(); links.append((e, c, kk))
+        if shape == "unpack":
+            # a splitter fed with plain items now and then (no `.items`): AttributeError path
+            pass
+    elif shape == "line":
         s = source(1); m = machine(1, 1); k = sink()
         a = E(); b = E(); links += [(a, s, m), (b, m, k)]
     elif shape == "two":
@@ -155,9 +205,17 @@ def gen_factory(rng):
     else:
         s = source(1); m1 = machine(1, 2); m2 = machine(2, 1); k = sink()
         a = E(); b = E(); c = E(); d = E(); links += [(a, s, m1), (b, m1, m2), (c, m1, m2), (d, m2, k)]
-    if rng.random() < 0.3: rng.shuffle(links)
-    return dict(edges=edges, nodes=nodes, links=links, horizon=rng.choice([20, 40, 60]), shape=shape,
-                rseed=rng.randrange(10 ** 6))
+    if rng.random() < 0.3:
+        orig = list(links)
+        rng.shuffle(links)
+        # the order of a combiner's in-edges is part of its recipe: keep it (a wrong order is generated separately)
+        comb = [i for i, d in enumerate(nodes) if d["kind"] == "combiner"]
+        pos = [i for i, l in enumerate(links) if l[2] in comb]
+        for i, l in zip(pos, [l for l in orig if l[2] in comb]): links[i] = l
+    cfg = dict(edges=edges, nodes=nodes, links=links, horizon=rng.choice([20, 40, 60]), shape=shape,
+               rseed=rng.randrange(10 ** 6))
+    if shape in ("pack", "unpack") and invalid: cfg["invalid"] = invalid   # outside the documented domain: the error named is the rejection
+    return cfg
 
 def run_factory(cfg):
     random.seed(cfg.get("rseed", 0))
@@ -195,6 +253,13 @@ def eval_factory(cfg):
     V = node_judges.judge_factory(rec, cfg)
     if rec.crash is None:
         V += node_judges.finalize_and_judge_states(rec, cfg, cfg["horizon"])
+        # the finalisation itself is part of the model for splitters and combiners
+        for nid, (kind, n, c) in enumerate(rec.nodes):
+            if kind in ("combiner", "splitter"):
+                h, ins, outs = nodes[nid]
+                exc = getattr(rec, "final_exc", {}).get(nid)
+                ins.append(f"final {cfg['horizon']}")
+                outs.append(f"final {exc}" if exc else "final || " + stats_str(kind, rec.snapshot(nid)))
     # reproducibility (C19): the same configuration again, in the same interpreter
     try:
         rec2 = run_factory(cfg)
